@@ -39,20 +39,31 @@ pub open spec fn is_min_hits<R>(m: Map<String, CacheEntry<R>>, q: Seq<String>, k
     && forall|j: int| 0 <= j < q.len() && m.contains_key(#[trigger] q[j]) ==> m[k].frequency <= m[q[j]].frequency
 }
 
-/// C07 / C08 victim choice of the sync engines, over the store and queue AFTER the new entry was stored.
-pub open spec fn sync_victim_ok<R>(p: EvictionPolicy, m: Map<String, CacheEntry<R>>, q: Seq<String>, v: String) -> bool {
-    q.contains(v) && m.contains_key(v) && match p {
-        EvictionPolicy::FIFO | EvictionPolicy::LRU => v == q[0],
-        EvictionPolicy::LFU => is_min_hits(m, q, v),
-        EvictionPolicy::Random => true,
-        EvictionPolicy::ARC | EvictionPolicy::TLRU => true,
-    }
-}
-
 /// exactly the entry of v left store and queue
 pub open spec fn evicted<R>(m0: Map<String, CacheEntry<R>>, q0: Seq<String>, m1: Map<String, CacheEntry<R>>, q1: Seq<String>, v: String) -> bool {
     m1 == m0.remove(v) && q1 == rm1(q0, v)
 }
+''')
+
+SYNC_SPEC = dict(kind='raw', label='sync_spec', text='''
+/// some stored entry of the queue has never been hit (after a store: the entry just stored)
+pub open spec fn some_zero_hits<R>(m: Map<String, CacheEntry<R>>, q: Seq<String>) -> bool {
+    exists|i: int| 0 <= i < q.len() && m.contains_key(#[trigger] q[i]) && m[q[i]].frequency == 0
+}
+
+/// C07 / C08 victim choice of the sync engines, over the store and queue AFTER the new entry was stored.
+pub open spec fn sync_victim_ok<R>(p: EvictionPolicy, m: Map<String, CacheEntry<R>>, q: Seq<String>, v: String, ttl: Option<u64>) -> bool {
+    q.contains(v) && m.contains_key(v) && match p {
+        EvictionPolicy::FIFO | EvictionPolicy::LRU => v == q[0],
+        EvictionPolicy::LFU => is_min_hits(m, q, v),
+        EvictionPolicy::Random => true,
+        // the entry just stored has zero hits, so the documented score hits x rank (x remaining lifetime) has minimum 0:
+        // the victim has zero hits (TLRU: or no remaining lifetime); proved from the argmin contract of the scoring helpers
+        EvictionPolicy::ARC => some_zero_hits(m, q) ==> m[v].frequency == 0,
+        EvictionPolicy::TLRU => some_zero_hits(m, q) ==> (m[v].frequency == 0 || is_zero(age_factor_code(age_f64(m[v].inserted_at), ttl))),
+    }
+}
+
 ''')
 
 MEM_SPEC = dict(kind='raw', label='mem_spec', text='''
@@ -98,6 +109,14 @@ COMMON = ENTRY_ITEMS + [ENTRY_SPEC] + POLICY_ITEMS + STATS_ITEMS + [ENGINE_SPEC,
 # Contract builders shared by the sync engines (field names differ: GlobalCache.map / ThreadLocalCache.cache)
 def wf_pre(m):
     return [('wf', 'wf(old(self).%s@, old(self).order@)' % m)]
+
+
+TLRU_CFG = ('tlru_cfg', 'old(self).policy is TLRU ==> tlru_cfg_ok(old(self).ttl, old(self).frequency_weight)')
+
+
+def store_pre(m):
+    """preconditions of the store operations: representation invariant + (TLRU only) a finite positive weight and ttl >= 1"""
+    return wf_pre(m) + [TLRU_CFG]
 
 
 CFG_FRAME = ('cfg_frame', ['C01', 'C04'],
@@ -149,6 +168,7 @@ def evict_requires(m, o):
     return [('wf', 'wf(old(%s)@, old(%s)@)' % (m, o)),
             # call sites: some stored entry has an unsaturated hit counter (insert: the entry just stored has zero hits)
             ('some_unsaturated', 'old(%s)@.len() > 0 ==> exists|j: int| 0 <= j < old(%s)@.len() && old(%s)@[#[trigger] old(%s)@[j]].frequency < u64::MAX' % (o, o, m, o)),
+            ('tlru_cfg', 'policy is TLRU ==> tlru_cfg_ok(ttl, frequency_weight)'),
             # implied by wf; stated so that the terms are available to the solver
             ('front_stored', 'old(%s)@.len() > 0 ==> old(%s)@.contains_key(old(%s)@[0]) && old(%s)@.contains(old(%s)@[0])' % (o, m, o, o, o))]
 
@@ -158,7 +178,7 @@ def evict_ensures(m, o):
         ('post_wf', ['C04'], 'wf(final(%s)@, final(%s)@)' % (m, o)),
         ('no_overflow_noop', ['C04', 'C03'], '(limit is None || old(%s)@.len() <= limit->Some_0) ==> final(%s)@ == old(%s)@ && final(%s)@ == old(%s)@' % (o, m, m, o, o)),
         ('overflow_one_victim', ['C04', 'C07', 'C08'], '(limit is Some && old(%s)@.len() > limit->Some_0) ==> '
-         'exists|v: String| sync_victim_ok(policy, old(%s)@, old(%s)@, v) && final(%s)@ == #[trigger] old(%s)@.remove(v) && final(%s)@ == rm1(old(%s)@, v)' % (o, m, o, m, m, o, o)),
+         'exists|v: String| sync_victim_ok(policy, old(%s)@, old(%s)@, v, ttl) && final(%s)@ == #[trigger] old(%s)@.remove(v) && final(%s)@ == rm1(old(%s)@, v)' % (o, m, o, m, m, o, o)),
     ]
 
 
@@ -174,7 +194,7 @@ def insert_ensures(m, stats=True):
          'final(self).order@ == %s && %s.dom() == %s.dom().insert(%s)' % (Q1, Q1, M1, M0, K)),
         ('overflow_one_victim', ['C04', 'C07', 'C08'], '(old(self).limit is Some && %s.len() > old(self).limit->Some_0) ==> '
          'exists|v: String, e: CacheEntry<R>| e.value == value && e.frequency == 0 '
-         '&& sync_victim_ok(old(self).policy, %s.insert(%s, e), %s, v) '
+         '&& sync_victim_ok(old(self).policy, %s.insert(%s, e), %s, v, old(self).ttl) '
          '&& %s == #[trigger] %s.insert(%s, e).remove(v) && final(self).order@ == rm1(%s, v)' % (Q1, M0, K, Q1, M1, M0, K, Q1)),
         ('survivors_unchanged', ['C01', 'C13'], 'forall|x: String| x != %s && #[trigger] %s.contains_key(x) ==> %s.contains_key(x) && %s[x] == %s[x]' % (K, M1, M0, M1, M0)),
         ('last_store_wins', ['C01', 'C11'], '%s.contains_key(%s) ==> %s[%s].value == value && %s[%s].frequency == 0' % (M1, K, M1, K, M1, K)),
@@ -186,7 +206,7 @@ def insert_ensures(m, stats=True):
 
 
 def insertm_requires(m):
-    return wf_pre(m) + [
+    return store_pre(m) + [
         ('counters_unsaturated', 'freq_ok(old(self).%s@)' % m),
         ('no_usize_overflow', 'mem_total(old(self).%s@, old(self).order@) + value.mem() <= usize::MAX' % m),
     ]
@@ -225,7 +245,8 @@ def memloop_spec(m, o, K='s2s(key)'):
         invariant=[
             ('wf', 'wf(%s, %s@)' % (MS, o)),
             ('cfg', 'self.limit == old(self).limit && self.max_memory == old(self).max_memory && self.policy == old(self).policy && self.ttl == old(self).ttl '
-                    '&& self.frequency_weight == old(self).frequency_weight && self.stats == old(self).stats && self.max_memory == Some(max_mem)'),
+                    '&& self.frequency_weight == old(self).frequency_weight && self.stats == old(self).stats && self.max_memory == Some(max_mem) '
+                    '&& (self.policy is TLRU ==> tlru_cfg_ok(self.ttl, self.frequency_weight))'),
             ('counters', 'freq_ok(%s)' % MS),
             ('pre_facts', 'wf(%s, old(self).order@) && %s <= usize::MAX' % (M0, REST)),
             ('submap', 'forall|x: String| #[trigger] %s.contains_key(x) ==> (if x == %s { %s[x].value == value && %s[x].frequency == 0 } else { %s.contains_key(x) && %s[x] == %s[x] })'
